@@ -122,6 +122,25 @@ HARDFOLD = ["a" * 2040 + ";" + "a" * 959, "a" * 2039 + ";" + "a" * 960, "a" * 20
 RESERVED_LIKE = re.compile(r"^(data_|save_|loop_|stop_|global_|[?.]$|[_$#])", re.I)
 
 
+def _textdelim_family():
+    """Multi-line values and where a line begins with a semicolon: every choice of which of the lines 2..n (n = 3, 4) begin
+    with ';', for values that may stand in a triple-quoted string and for values that can only stand in a text field
+    (both triple delimiters occur in one of the lines): whether the field must be prefixed depends on ANY such line."""
+    out = []
+    for n in (3, 4):
+        for mask in range(1, 1 << (n - 1)):
+            for force_at in (None, 0, n - 1):
+                lines = []
+                for i in range(n):
+                    body = "l%d" % i + ("'\'\'x\"\"\"" if force_at == i else "")
+                    lines.append((";" if i > 0 and (mask >> (i - 1)) & 1 else "") + body)
+                out.append("\n".join(lines))
+    return out
+
+
+TEXTDELIM = _textdelim_family()
+
+
 def descriptor_strings(tier, rnd):
     """strings built from runs of significant characters with run lengths around the line limit and the fold target"""
     classes = {"a": "a", "sp": " ", "sq": "'", "dq": '"', "semi": ";", "bsl": "\\", "nl": "\n", "u4": "𝄞", "br": "]", "hash": "#", "tab": "\t"}
@@ -156,7 +175,7 @@ def descriptor_strings(tier, rnd):
              # backslash, possibly followed by blanks: the first line of the field must not read as a fold / prefix signature
              "a'b\"c\\", "it's a \"path\": C:\\", "a'b\"c\\  ", "a'b\"c\\\t", "a'''b\"\"\"c\\", "a'''b\"\"\"c\\ ", "'\"\\", "a'b\"c\\\\", "> a'b\"c\\",
              # long lines without blanks: the writer has to fold hard at the target length (2040) - what stands there matters
-             ] + HARDFOLD
+             ] + HARDFOLD + TEXTDELIM
     out += extra
     seen, res = set(), []
     for s in out:
@@ -260,6 +279,8 @@ def run_roundtrip(prop, ver, tier):
     positions = ["scalar", "loop", "list", "table", "key", "unquoted", "frame", "looplist", "looptable"] if ver == 2 else ["scalar", "loop", "unquoted", "frame", "list", "looplist", "looptable"]
     for i, s in enumerate(strs):
         sel = positions if (tier != "quick" or s in HARDFOLD) else [positions[i % len(positions)], positions[(i * 3 + 1) % len(positions)]]
+        if s in TEXTDELIM and "scalar" not in sel:
+            sel = ["scalar"] + sel
         if RESERVED_LIKE.match(s) and "unquoted" not in sel:
             sel = sel + ["unquoted"]      # what looks like a reserved word is always also tried as a value marked unquoted
         for pos in sel:
